@@ -29,3 +29,15 @@ static A: Counting = Counting;
 pub fn allocs() -> u64 {
     ALLOCS.load(Ordering::Relaxed)
 }
+
+/// allocations made inside library calls bracketed with `lib` since the last `take_lib`
+pub static LIB: AtomicU64 = AtomicU64::new(0);
+pub fn lib<T>(f: impl FnOnce() -> T) -> T {
+    let a0 = allocs();
+    let r = f();
+    LIB.fetch_add(allocs() - a0, Ordering::Relaxed);
+    r
+}
+pub fn take_lib() -> u64 {
+    LIB.swap(0, Ordering::Relaxed)
+}
